@@ -55,6 +55,15 @@ def sample_archives(py7zr, R, tier):
                 z.close()
             raw = bio.getvalue()
             out.append((f"py7zr:{name}:{hdr}:{nsess}folders", raw, pw, regions_of(raw, pw)))
+    # ---- encrypted header (7zAES only: no decoder notices a flipped bit, only the CRC of the decoded header does)
+    bio = io.BytesIO()
+    z = py7zr.SevenZipFile(bio, "w", filters=[{"id": 0x33}, {"id": 0x06F10701}], password="pw")
+    z.set_encrypted_header(True)
+    for nm, data in members(3, 77):
+        z.writestr(data, "enc/" + nm)
+    z.close()
+    raw = bio.getvalue()
+    out.append(("py7zr:copy+aes:enchdr:1folders", raw, "pw", regions_of(raw, "pw")))
     # ---- members whose CRC-32 is 0x00000000 / 0xFFFFFFFF (a defined CRC of 0 is not "no CRC"); stored, so only the CRC can notice
     for k, (name, filt) in enumerate([("copy", [{"id": 0x33}]), ("lzma2", [{"id": 0x21, "preset": 1}])] if tier != "quick" else [("copy", [{"id": 0x33}])]):
         bio = io.BytesIO()
@@ -219,6 +228,36 @@ def probe(case):
         ev["missing"] = len([n for n in data0 if n not in got])
 
     run("extractall", full)
+    if bypath and len(case) > 6 and case[6]:
+        # the same through worker PROCESSES (mp=True), into a directory: an error met by a child must reach the caller as well
+        import shutil
+        import tempfile
+
+        def full_mp(z, ev):
+            od = tempfile.mkdtemp(prefix="c04mp-", dir="/dev/shm" if os.path.isdir("/dev/shm") else None)
+            try:
+                z.extractall(od)
+                got = {}
+                for n in z.getnames():
+                    p = os.path.join(od, n)
+                    if os.path.isfile(p) and not os.path.islink(p):
+                        got[n] = open(p, "rb").read()
+                ev["outcome"] = judge(None, got)
+                ev["missing"] = len([n for n in data0 if n not in got])
+            finally:
+                shutil.rmtree(od, ignore_errors=True)
+
+        ev0 = {"e": "out", "path": "extractall", "outcome": "same", "verdict": "none", "exc": ""}
+        try:
+            with py7zr.SevenZipFile(fname, password=password, mp=True) as z:
+                full_mp(z, ev0)
+        except BaseException as e:  # noqa
+            if isinstance(e, (KeyboardInterrupt, SystemExit, MemoryError)):
+                os.unlink(fname)
+                raise
+            ev0["outcome"] = "error"
+            ev0["exc"] = type(e).__name__
+        outs.append(ev0)
     for T in targets:
         def part(z, ev, T=T):
             fac = py7zr.io.BytesIOFactory(1 << 28)
